@@ -1,16 +1,16 @@
 HARNESSES = {
     'Clamp': dict(split={'spread': 4}),
-    'AtStops': dict(split={'where': 4, 'spread': 3}, quick=dict(params={'N': 2, 'symoff': 0}), thorough=dict(params={'N': 3, 'symoff': 1})),
+    'AtStops': dict(split={'where': 4, 'spread': 3}, quick=dict(params={'N': 2, 'symoff': 0}), thorough=dict(params={'N': 3, 'symoff': 0})),
     'AtGeometry': dict(split={'shape': 2, 'spread': 4}, opts=dict(feas_timeout_ms=400), quick=dict(params={'symoff': 0}), thorough=dict(params={'symoff': 1})),
-    'Matrix': dict(mode='X', split={'shape': 2}, validate=0),
+    'Matrix': dict(mode='X', split={'shape': 2, 'prior': 2}, validate=0),
     'Interpolation': dict(mode='X', validate=0),
 }
 
 BOUNDS = {
     'Clamp': 'bit exact, every float64 with |x| < 2^31, all four spreads',
-    'AtStops': '2 stops with concrete offsets and symbolic colours (quick); 2-3 stops with symbolic strictly increasing float32 offsets (thorough); offset an arbitrary float64 in the stated region',
+    'AtStops': '2 stops with concrete offsets and symbolic colours (quick); 3 stops with concrete offsets (thorough; symbolic strictly increasing offsets were inconclusive at the caps and are not claimed); offset an arbitrary float64 in the stated region',
     'AtGeometry': 'symbolic float64 matrix, any int32 pixel, both shapes, all spreads; relational against the specification colour function',
-    'Matrix': 'exact-real reading, 48x20 raster, symbolic viewBox and register matrix, any pixel-space point',
+    'Matrix': 'exact-real reading, 48x20 raster (fresh, or after painting the same gradient on a 16x16 raster and SetRasterizer), symbolic viewBox and register matrix, any pixel-space point',
     'Interpolation': 'exact-real reading, one range',
 }
 OUTSIDE = 'bit-exact premultiplication of interpolated colours (float64 monotonicity: timeouts) - claimed in exact reals only; stop lists longer than 3; rounding error of the matrix'
